@@ -55,6 +55,17 @@ CASES = [
       ("        return (LP.item(), LA.item())\n", "        lp_value = LP.item()\n        la_value = LA.item()\n        return lp_value, la_value\n")),
     R("r-width-commuted", "_backend_engine: `(2 if base.pass_y_ else 1) * n_Y_features`",
       ("                n_Y_features * (2 if base.pass_y_ else 1),\n", "                (2 if base.pass_y_ else 1) * n_Y_features,\n"), file=FB),
+    # ---- arguments of the bookkeeping calls (pinned whitelist)
+    R("r-zero-grad-keep-tensors", "train_step: the first pair of zero_grad() calls with set_to_none=False",
+      ("        # Clear gradient\n        self.predictor_optimizer.zero_grad()\n        self.adversary_optimizer.zero_grad()\n", "        self.predictor_optimizer.zero_grad(set_to_none=False)\n        self.adversary_optimizer.zero_grad(set_to_none=False)\n")),
+    R("r-zero-grad-positional", "train_step: zero_grad(True) / zero_grad(set_to_none=True)",
+      ("        # Clear gradient\n        self.predictor_optimizer.zero_grad()\n        self.adversary_optimizer.zero_grad()\n", "        self.predictor_optimizer.zero_grad(True)\n        self.adversary_optimizer.zero_grad(set_to_none=True)\n")),
+    R("r-train-mode", "train_step: train(True) / train(mode=True)",
+      ("        self.predictor_model.train()\n        self.adversary_model.train()\n", "        self.predictor_model.train(True)\n        self.adversary_model.train(mode=True)\n")),
+    R("r-la-retain-graph", "train_step: LA.backward(retain_graph=True) (no backward pass follows: only memory)",
+      ("        LA.backward()\n", "        LA.backward(retain_graph=True)\n")),
+    R("r-la-retain-false", "train_step: LA.backward(retain_graph=False) (the default, spelled out)",
+      ("        LA.backward()\n", "        LA.backward(retain_graph=False)\n")),
     # ------------------------------------------------------------------ semantic edits
     S("s-no-second-zero", "train_step: predictor gradients not cleared before LA.backward()",
       ("        self.predictor_optimizer.zero_grad()\n        self.adversary_optimizer.zero_grad()\n\n        # For equalized odds\n",
@@ -79,4 +90,21 @@ CASES = [
     S("s-pass-y", "__setup: demographic_parity sets pass_y_ = True",
       ("            self.pass_y_ = False\n", "            self.pass_y_ = True\n"), file=FM),
     S("s-width", "_backend_engine: adversary width 3 * n_Y_features", ("(2 if base.pass_y_ else 1)", "(3 if base.pass_y_ else 1)"), file=FB),
+    # ---- arguments of the bookkeeping calls
+    S("s-backward-inputs", "train_step: LA.backward(inputs=<adversary parameters>): the predictor's buffers stay zero/None",
+      ("        LA.backward()\n", "        LA.backward(inputs=list(self.adversary_model.parameters()))\n")),
+    S("s-backward-gradient", "train_step: LP.backward(gradient=torch.tensor(2.0), retain_graph=True): dLP/dW doubled",
+      ("        LP.backward(retain_graph=True)", "        LP.backward(gradient=torch.tensor(2.0), retain_graph=True)")),
+    S("s-backward-positional", "train_step: LA.backward(torch.tensor(0.5)): positional `gradient`",
+      ("        LA.backward()\n", "        LA.backward(torch.tensor(0.5))\n")),
+    S("s-lp-no-retain", "train_step: LP.backward() without retain_graph (LA.backward() then walks a freed graph)",
+      ("        LP.backward(retain_graph=True)", "        LP.backward()")),
+    S("s-backward-create-graph", "train_step: LA.backward(create_graph=True)",
+      ("        LA.backward()\n", "        LA.backward(create_graph=True)\n")),
+    S("s-step-closure", "train_step: predictor_optimizer.step(closure)",
+      ("        self.predictor_optimizer.step()\n", "        self.predictor_optimizer.step(lambda: self.predictor_loss(self.predictor_model(X), Y))\n")),
+    S("s-backward-kwargs", "train_step: LA.backward(**self.backward_kwargs)",
+      ("        LA.backward()\n", "        LA.backward(**self.backward_kwargs)\n")),
+    S("s-backward-twice", "train_step: LP back-propagated twice",
+      ("        LP.backward(retain_graph=True)  # Check what this does at some point in time\n", "        LP.backward(retain_graph=True)\n        LP.backward(retain_graph=True)\n")),
 ]
